@@ -111,3 +111,204 @@ Proof. unfold check_verdict. destruct sup; reflexivity. Qed.
 Theorem redirect_of_verdict b st m :
   v_redirect (check_verdict true b st m) = redirect_of st m.
 Proof. reflexivity. Qed.
+
+(* ================================================================ i32::from_str *)
+Open Scope Z_scope.
+
+Definition horner (acc : Z) (s : str) : Z := fold_left (fun a c => a * 10 + digit_val c) s acc.
+Definition horner_neg (acc : Z) (s : str) : Z := fold_left (fun a c => a * 10 - digit_val c) s acc.
+
+Lemma digit_val_range c : is_digit c = true -> 0 <= digit_val c <= 9.
+Proof. unfold is_digit, digit_val. intros H. lia. Qed.
+
+Lemma horner_ge s : forall acc, 0 <= acc -> all_digits s = true -> acc <= horner acc s.
+Proof.
+  induction s as [|c r IH]; intros acc Ha Hd; cbn; [lia|].
+  cbn in Hd. apply andb_true_iff in Hd as [Hc Hr]. pose proof (digit_val_range c Hc) as Hv.
+  specialize (IH (acc * 10 + digit_val c)). unfold horner in IH. lia.
+Qed.
+
+Lemma horner_neg_le s : forall acc, acc <= 0 -> all_digits s = true -> horner_neg acc s <= acc.
+Proof.
+  induction s as [|c r IH]; intros acc Ha Hd; cbn; [lia|].
+  cbn in Hd. apply andb_true_iff in Hd as [Hc Hr]. pose proof (digit_val_range c Hc) as Hv.
+  specialize (IH (acc * 10 - digit_val c)). unfold horner_neg in IH. lia.
+Qed.
+
+Lemma horner_neg_opp s : forall acc, horner_neg (- acc) s = - horner acc s.
+Proof.
+  induction s as [|c r IH]; intros acc; cbn; [reflexivity|].
+  unfold horner_neg, horner in *. rewrite <- IH. f_equal. lia.
+Qed.
+
+Lemma parse_pos_spec s : forall acc z, 0 <= acc <= I32_MAX ->
+  (parse_pos acc s = Some z <-> all_digits s = true /\ z = horner acc s /\ z <= I32_MAX).
+Proof.
+  induction s as [|c r IH]; intros acc z Ha; cbn [parse_pos all_digits forallb].
+  - unfold horner. cbn. split.
+    + intros H. inversion H; subst. repeat split; lia.
+    + intros (_ & -> & _). reflexivity.
+  - destruct (is_digit c) eqn:Hc; cbn [andb].
+    + pose proof (digit_val_range c Hc) as Hv.
+      change (horner acc (c :: r)) with (horner (acc * 10 + digit_val c) r).
+      destruct (acc * 10 + digit_val c >? I32_MAX) eqn:Ho.
+      * split; [discriminate|]. intros (Hd & -> & Hz). exfalso.
+        pose proof (horner_ge r (acc * 10 + digit_val c) ltac:(lia) Hd). lia.
+      * apply IH. lia.
+    + split; [discriminate|]. intros (Hd & _). discriminate.
+Qed.
+
+Lemma parse_neg_spec s : forall acc z, I32_MIN <= acc <= 0 ->
+  (parse_neg acc s = Some z <-> all_digits s = true /\ z = horner_neg acc s /\ I32_MIN <= z).
+Proof.
+  induction s as [|c r IH]; intros acc z Ha; cbn [parse_neg all_digits forallb].
+  - unfold horner_neg. cbn. split.
+    + intros H. inversion H; subst. repeat split; lia.
+    + intros (_ & -> & _). reflexivity.
+  - destruct (is_digit c) eqn:Hc; cbn [andb].
+    + pose proof (digit_val_range c Hc) as Hv.
+      change (horner_neg acc (c :: r)) with (horner_neg (acc * 10 - digit_val c) r).
+      destruct (acc * 10 - digit_val c <? I32_MIN) eqn:Ho.
+      * split; [discriminate|]. intros (Hd & -> & Hz). exfalso.
+        pose proof (horner_neg_le r (acc * 10 - digit_val c) ltac:(lia) Hd). lia.
+      * apply IH. lia.
+    + split; [discriminate|]. intros (Hd & _). discriminate.
+Qed.
+
+(* the accepted language and its value: one optional sign, at least one ASCII digit, nothing
+   else, and the value inside the i32 range *)
+Inductive i32_text : str -> Z -> Prop :=
+| I32Plain ds : ds <> [] -> all_digits ds = true -> digits_value ds <= I32_MAX -> i32_text ds (digits_value ds)
+| I32Plus ds : ds <> [] -> all_digits ds = true -> digits_value ds <= I32_MAX -> i32_text (PLUS :: ds) (digits_value ds)
+| I32Minus ds : ds <> [] -> all_digits ds = true -> I32_MIN <= - digits_value ds -> i32_text (MINUS :: ds) (- digits_value ds).
+
+Theorem parse_i32_spec s z : parse_i32 s = Some z <-> i32_text s z.
+Proof.
+  assert (R0 : 0 <= 0 <= I32_MAX) by (unfold I32_MAX; lia).
+  assert (R1 : I32_MIN <= 0 <= 0) by (unfold I32_MIN; lia).
+  split.
+  - intros H. destruct s as [|c r]; [discriminate|]. unfold parse_i32 in H.
+    destruct (N.eqb c MINUS) eqn:Em.
+    + apply N.eqb_eq in Em. subst c. destruct r as [|d r]; [discriminate|].
+      apply (parse_neg_spec (d :: r) 0 z R1) in H as (Hd & -> & Hz).
+      change 0 with (- 0) in *. rewrite horner_neg_opp in *.
+      apply I32Minus; [discriminate|exact Hd|exact Hz].
+    + destruct (N.eqb c PLUS) eqn:Ep.
+      * apply N.eqb_eq in Ep. subst c. destruct r as [|d r]; [discriminate|].
+        apply (parse_pos_spec (d :: r) 0 z R0) in H as (Hd & -> & Hz).
+        apply I32Plus; [discriminate|exact Hd|exact Hz].
+      * apply (parse_pos_spec (c :: r) 0 z R0) in H as (Hd & -> & Hz).
+        apply I32Plain; [discriminate|exact Hd|exact Hz].
+  - intros H. destruct H as [ds Hne Hd Hz|ds Hne Hd Hz|ds Hne Hd Hz].
+    + destruct ds as [|c r]; [congruence|]. unfold parse_i32.
+      assert (Hc : is_digit c = true) by (cbn in Hd; apply andb_true_iff in Hd; tauto).
+      assert (Em : N.eqb c MINUS = false) by (unfold is_digit, MINUS in *; lia).
+      assert (Ep : N.eqb c PLUS = false) by (unfold is_digit, PLUS in *; lia).
+      rewrite Em, Ep. apply (parse_pos_spec (c :: r) 0 _ R0). repeat split; auto.
+    + unfold parse_i32. change (N.eqb PLUS MINUS) with false. change (N.eqb PLUS PLUS) with true. cbn iota.
+      destruct ds as [|c r]; [congruence|]. apply (parse_pos_spec (c :: r) 0 _ R0). repeat split; auto.
+    + unfold parse_i32. change (N.eqb MINUS MINUS) with true. cbn iota.
+      destruct ds as [|c r]; [congruence|]. apply (parse_neg_spec (c :: r) 0 _ R1).
+      change 0 with (- 0). rewrite horner_neg_opp. repeat split; auto.
+Qed.
+
+Theorem parse_i32_range s z : parse_i32 s = Some z -> I32_MIN <= z <= I32_MAX.
+Proof.
+  intros H. apply parse_i32_spec in H.
+  assert (G : forall ds, all_digits ds = true -> 0 <= digits_value ds).
+  { intros ds Hd. apply (horner_ge ds 0); [lia|exact Hd]. }
+  destruct H as [ds _ Hd Hz|ds _ Hd Hz|ds _ Hd Hz]; specialize (G ds Hd); unfold I32_MIN, I32_MAX in *; lia.
+Qed.
+
+Close Scope Z_scope.
+
+(* ================================================================ split_redirect_priority *)
+Lemma rfind_byte_None c s : rfind_byte c s = None <-> ~ In c s.
+Proof.
+  induction s as [|x s IH]; cbn; [tauto|].
+  destruct (rfind_byte c s) as [j|] eqn:F.
+  - split; [discriminate|]. intros H. exfalso.
+    assert (G : ~ In c s) by (intros G; apply H; auto). apply IH in G. discriminate.
+  - destruct (N.eqb x c) eqn:E.
+    + apply N.eqb_eq in E. split; [discriminate|]. intros H. exfalso. apply H. auto.
+    + apply N.eqb_neq in E. split; [|reflexivity]. intros _ [G|G]; [congruence|].
+      apply (proj1 IH eq_refl). exact G.
+Qed.
+
+Lemma rfind_byte_Some c s : forall i,
+  rfind_byte c s = Some i -> s = take i s ++ c :: drop (S i) s /\ ~ In c (drop (S i) s).
+Proof.
+  induction s as [|x s IH]; cbn; intros i H; [discriminate|].
+  destruct (rfind_byte c s) as [j|] eqn:F.
+  - inversion H; subst. destruct (IH j eq_refl) as [A B]. unfold take, drop in *. cbn.
+    split; [f_equal; exact A|exact B].
+  - destruct (N.eqb x c) eqn:E; [|discriminate]. inversion H; subst. apply N.eqb_eq in E. subst x.
+    unfold take, drop. cbn. split; [reflexivity|]. apply rfind_byte_None. exact F.
+Qed.
+
+Lemma rfind_byte_app c a b : ~ In c b -> rfind_byte c (a ++ c :: b) = Some (length a).
+Proof.
+  intros H. induction a as [|x a IH]; cbn.
+  - apply rfind_byte_None in H. rewrite H, N.eqb_refl. reflexivity.
+  - rewrite IH. reflexivity.
+Qed.
+
+(* no ':' at all: the whole option is the resource name, priority 0 *)
+Theorem split_no_colon s : ~ In COLON s -> split_redirect_priority s = (s, 0%Z).
+Proof. intros H. unfold split_redirect_priority. apply rfind_byte_None in H. rewrite H. reflexivity. Qed.
+
+(* `name:suffix` with the LAST colon: a well-formed i32 suffix is the priority ... *)
+Theorem split_with_priority name suf p :
+  ~ In COLON suf -> i32_text suf p -> split_redirect_priority (name ++ COLON :: suf) = (name, p).
+Proof.
+  intros Hc Hp. unfold split_redirect_priority. rewrite (rfind_byte_app COLON name suf Hc).
+  replace (drop (S (length name)) (name ++ COLON :: suf)) with suf.
+  - apply parse_i32_spec in Hp. rewrite Hp. rewrite take_app_length. reflexivity.
+  - replace (name ++ COLON :: suf) with ((name ++ [COLON]) ++ suf) by (rewrite <- app_assoc; reflexivity).
+    symmetry. apply drop_app_length'. rewrite app_length. cbn. lia.
+Qed.
+
+(* ... anything else after the last colon (empty, lone sign, non-digit, out of the i32 range)
+   leaves the whole string as the name, priority 0 *)
+Theorem split_malformed name suf :
+  ~ In COLON suf -> (forall p, ~ i32_text suf p) ->
+  split_redirect_priority (name ++ COLON :: suf) = (name ++ COLON :: suf, 0%Z).
+Proof.
+  intros Hc Hp. unfold split_redirect_priority. rewrite (rfind_byte_app COLON name suf Hc).
+  replace (drop (S (length name)) (name ++ COLON :: suf)) with suf.
+  - destruct (parse_i32 suf) as [p|] eqn:E; [|reflexivity]. apply parse_i32_spec in E. destruct (Hp p E).
+  - replace (name ++ COLON :: suf) with ((name ++ [COLON]) ++ suf) by (rewrite <- app_assoc; reflexivity).
+    symmetry. apply drop_app_length'. rewrite app_length. cbn. lia.
+Qed.
+
+(* every answer is one of the two shapes *)
+Theorem split_spec s name p :
+  split_redirect_priority s = (name, p) ->
+  (name = s /\ p = 0%Z) \/
+  (exists suf, s = name ++ COLON :: suf /\ ~ In COLON suf /\ i32_text suf p).
+Proof.
+  unfold split_redirect_priority. destruct (rfind_byte COLON s) as [i|] eqn:F.
+  - destruct (rfind_byte_Some _ _ _ F) as [A B].
+    destruct (parse_i32 (drop (S i) s)) as [q|] eqn:E; intros H; inversion H; subst; [|left; auto].
+    right. exists (drop (S i) s). split; [exact A|]. split; [exact B|]. apply parse_i32_spec. exact E.
+  - intros H. inversion H; subst. left. auto.
+Qed.
+
+Theorem split_priority_range s : (I32_MIN <= snd (split_redirect_priority s) <= I32_MAX)%Z.
+Proof.
+  destruct (split_redirect_priority s) as [name p] eqn:E. cbn.
+  destruct (split_spec _ _ _ E) as [[_ ->]|(suf & _ & _ & H)].
+  - unfold I32_MIN, I32_MAX. lia.
+  - apply parse_i32_spec in H. apply parse_i32_range in H. exact H.
+Qed.
+
+Example ex_split :
+  split_redirect_priority (bs "noop.js:10") = (bs "noop.js", 10%Z) /\
+  split_redirect_priority (bs "noop.js:-1") = (bs "noop.js", (-1)%Z) /\
+  split_redirect_priority (bs "noop.js:+3") = (bs "noop.js", 3%Z) /\
+  split_redirect_priority (bs "noop.js:x") = (bs "noop.js:x", 0%Z) /\
+  split_redirect_priority (bs "noop.js:") = (bs "noop.js:", 0%Z) /\
+  split_redirect_priority (bs "noop.js:2147483648") = (bs "noop.js:2147483648", 0%Z) /\
+  split_redirect_priority (bs "noop.js:-2147483648") = (bs "noop.js", (-2147483648)%Z) /\
+  split_redirect_priority (bs "a:b:5") = (bs "a:b", 5%Z).
+Proof. vm_compute. repeat split; reflexivity. Qed.
